@@ -49,10 +49,12 @@ class ArgumentGenerator:
         custom_scalars: Dict[str, ScalarData],
         convert_to_snake_case: bool,
         plugin_manager: Optional[PluginManager] = None,
+        input_types_module_name: str = "input_types",
     ) -> None:
         self.custom_scalars = custom_scalars
         self.convert_to_snake_case = convert_to_snake_case
         self.plugin_manager = plugin_manager
+        self.input_types_module_name = input_types_module_name
         self.imports: List[ast.ImportFrom] = []
         self._used_custom_scalars: List[str] = []
 
@@ -200,7 +202,9 @@ class ArgumentGenerator:
         used_custom_scalar = None
         if isinstance(type_, GraphQLInputObjectType):
             self._add_import(
-                generate_import_from(names=[name], from_="input_types", level=1)
+generate_import_from(
+                    names=[name], from_=self.input_types_module_name, level=1
+                )
             )
         elif isinstance(type_, GraphQLEnumType):
             self._add_import(generate_import_from(names=[name], level=1))
